@@ -24,7 +24,15 @@ RULE = ('reference = synthetic two-chain complex from complexgen (3-12 residues 
         'one step outside, for the cutoffs 3, 5 and 4.5. compute_clashes: the same structures (chains moved towards each other) with chain1/chain2 = '
         'the two chains in both orders and by default, lattice structures one step inside/outside 3 A; pairs at exactly 3 A only in the dedicated '
         'probe (known finding C08-F2). Out-of-domain stream (implementation vs Model only): three chains, one chain, no contact, different chain '
-        'identifiers in the two files, renamed decoy residue, chain given by segID. A case is non-trivial when distinct by (family, number of '
+        'identifiers in the two files, renamed decoy residue, chain given by segID. NON-CONTIGUOUS files: decoys (30% also references) whose '
+        'residues are split over the file -- backbone of the whole chain first and side chains afterwards, heavy atoms first and hydrogens '
+        'appended, a few atoms appended at the end of the chain, atoms of a chain in random order -- for Fnat (both routes) and the clash count. '
+        'LARGE structures (extra checks; too big for exact rationals): one chain of 2^k + 1..700 ATOM records, 2^k = 256..4096 (quick: one of '
+        '2048/4096 and one of 256/512/1024), with hydrogens, line or serpentine layout, first or second in the file, a partner of 12-36 residues '
+        'facing the last residues / the window around position 2^k / a random window; decoys = the reference, and the partner moved 0.7-2.3 A with '
+        'interface residues deleted on both sides; get_contact_atoms (sets, pair map, both chain orders, filter combinations, allchains), '
+        'compute_clashes (both orders) and both Fnat routes (two cutoffs) against a brute-force NumPy evaluation of the definitions on the record '
+        'text, every inter-chain distance at least 1e-6 from every cutoff used. A case is non-trivial when distinct by (family, number of '
         'reference contacts, value, cutoff).')
 ASSUMPTIONS = ['single-model files (no ENDMDL)',
                'floating-point distance decision equals the exact one: generated distances are exactly on the cutoff with dyadic coordinates '
@@ -159,6 +167,48 @@ def random_pair(rng, family, long_residues=False):
             continue
         return rl, dl, cutoff
     raise RuntimeError('generator could not place a pair away from the cutoff')
+
+
+# ---- records of one residue NOT contiguous in the file -------------------------------------------------------------
+
+NONCONTIGUOUS_BASE = ['self', 'self', 'jitter', 'jitter', 'rigid_chain', 'del_iface_first', 'del_iface_second', 'del_atoms']
+
+
+def noncontiguous_pair(rng, level):
+    """reference / decoy pair in which the ATOM records of a residue are not contiguous in the decoy file (and sometimes in the
+    reference file as well): all backbone atoms of a chain first and the side chains afterwards, heavy atoms first and hydrogens
+    appended, a few atoms appended at the end of the chain, or the atoms of a chain in random order (complexgen.permute, levels
+    NONCONTIGUOUS_LEVELS).  Fnat and the clash count are defined on the SET of atoms: the order of the records is not in the
+    definition.  The decoy is first derived from the reference like the other families (identical / jittered / one chain moved /
+    interface residues or atoms deleted)."""
+    for attempt in range(30):
+        cutoff = rng.choice(CUTOFFS)
+        chains = rng.choice(CHAIN_PAIRS)
+        ref = cg.make_complex(rng, chains=chains, hydrogens=rng.random() < 0.6, gap=rng.choice([3.5, 4.5, 6.0]))
+        base = rng.choice(NONCONTIGUOUS_BASE)
+        dec = cg.permute(rng, make_decoy(rng, ref, base, cutoff), level)
+        if rng.random() < 0.3:
+            ref = cg.permute(rng, ref, rng.choice(cg.NONCONTIGUOUS_LEVELS))
+        rl, dl = ref.lines(), dec.lines()
+        if len({l[21] for l in dl}) < 2 or len(dl) < 4:
+            continue
+        if near_cutoff(rl, cutoff) or near_cutoff(dl, cutoff):
+            _STATS['regenerated_near_cutoff'] += 1
+            continue
+        return rl, dl, cutoff, base
+    raise RuntimeError('generator could not place a pair away from the cutoff')
+
+
+def split_residues(lines):
+    """number of residues (chain, resSeq, resName) whose records form more than one run in the file"""
+    runs = {}
+    prev = None
+    for l in lines:
+        key = (l[21], l[22:26], l[17:20])
+        if key != prev:
+            runs[key] = runs.get(key, 0) + 1
+        prev = key
+    return sum(1 for v in runs.values() if v > 1)
 
 
 # ---- lattice families -------------------------------------------------------------------------------------------
@@ -405,6 +455,26 @@ def cases(ctx):
     third = [cg.atom_line(900 + i, 'CA', 'GLY', 'C', i + 1, 1.0 + 3.8 * i, 2.0, 0.5) for i in range(3)]
     out.append(clash_case(cx.lines() + third, 'A', 'B', 'three-chains'))
     out.append(clash_case(cx.lines() + third, 'A', 'C', 'three-chains'))
+    # ---- files in which the records of a residue are not contiguous (both Fnat routes, clash count); appended last so that the
+    #      cases above are the same as before for a given seed
+    for level in cg.NONCONTIGUOUS_LEVELS:
+        for k in range(ctx.scale(2, 12)):
+            rl, dl, cutoff, base = noncontiguous_pair(rng, level)
+            out.append(fnat_case(rl, dl, cutoff, 'noncontiguous-' + level, via=rng.choice(['file', 'list']),
+                                 default=(cutoff == 5.0 and rng.random() < 0.5)))
+            out[-1]['decoy_family'] = base
+            out[-1]['split_residues'] = [split_residues(rl), split_residues(dl)]
+        for k in range(ctx.scale(1, 6)):
+            for attempt in range(20):
+                cx = squeeze(rng, cg.make_complex(rng, chains=rng.choice(CHAIN_PAIRS), hydrogens=rng.random() < 0.6, gap=4.5),
+                             rng.choice([0.6, 1.5, 2.4, 2.9]))
+                ls = cg.permute(rng, cx, level).lines()
+                if clash_free_of_exact3(ls):
+                    break
+                _STATS['regenerated_near_cutoff'] += 1
+            ch = cx.chains()
+            order = rng.choice([(ch[0], ch[1]), (ch[1], ch[0])])
+            out.append(clash_case(ls, order[0], order[1], 'squeezed-noncontiguous-' + level))
     return out
 
 
@@ -682,7 +752,8 @@ def agree_spec(c, out, spec):
                 return v if v == 'discard' else f'{route}: implementation/definition {v} (reference contacts {spec["n_ref"]}, preserved {spec["n_preserved"]})'
             if not str(out[route]).startswith('ERR') and not (0 <= unrat(out[route]) <= 1):
                 return f'{route}: value {out[route]} outside [0,1]'
-        if c['family'] == 'self' and spec['n_ref'] > 0 and in_domain(c, spec, 'sql'):
+        same_atoms = c['family'] == 'self' or (c['family'].startswith('noncontiguous') and c.get('decoy_family') == 'self')
+        if same_atoms and spec['n_ref'] > 0 and in_domain(c, spec, 'sql'):
             for route in ('fast', 'sql'):
                 if out[route] != '1/1':
                     return f'{route}: decoy = reference but Fnat = {out[route]}'
@@ -737,6 +808,9 @@ def distribution(recs):
             'reference_contacts': {'min': min(n_ref) if n_ref else 0, 'max': max(n_ref) if n_ref else 0,
                                    'mean': round(sum(n_ref) / len(n_ref), 1) if n_ref else 0},
             'clash_counts': {'zero': sum(1 for v in cl if v == 0), 'positive': sum(1 for v in cl if v > 0), 'max': max(cl) if cl else 0},
+            'noncontiguous_files': {'cases': sum(1 for r in recs if 'noncontiguous' in r['case']['family']),
+                                    'decoys_with_split_residues': sum(1 for r in recs if r['case'].get('split_residues', [0, 0])[1] > 0),
+                                    'references_with_split_residues': sum(1 for r in recs if r['case'].get('split_residues', [0, 0])[0] > 0)},
             'regenerated_near_cutoff': _STATS['regenerated_near_cutoff']}
 
 
@@ -828,10 +902,290 @@ def sim_gen_checks(ctx):
              'kind': 'gen-sim-fnat'}]
 
 
+# ---- LARGE structures: the library against a brute-force NumPy evaluation of the definitions --------------------------------------
+#
+# The property quantifies over all two-chain complexes; the exact-rational Lean drivers take structures of tens of atoms in the quick
+# tier.  Chains of hundreds to thousands of ATOM records (protonated receptors) are therefore compared with an independent evaluation
+# of the DEFINITIONS written here with NumPy on the text of the records (three decimals: the text is the ground truth):
+#   contact atoms / pair map (C05's definition, which clash count and both Fnat routes are built on), clash count, Fnat.
+# Chain sizes are taken just above the powers of two 256 .. 4096 (where blocked / chunked / paged implementations change regime), the
+# partner chain faces the window of the big chain that holds those atom positions, both chains carry hydrogens, the big chain is the
+# first or the second chain of the file and of the call.  Every inter-chain distance is at least 1e-6 away from every cutoff used
+# (regenerated otherwise), so that the binary64 decisions are the exact ones.
+
+BACKBONE = ['CA', 'C', 'N', 'O']                 # the published convention (as in C05), not read from the library
+LARGE_SIZES = [256, 512, 1024, 2048, 4096]
+LARGE_CUTOFFS = [5.0, 3.5, 4.0, 6.0]
+
+
+def large_pair(spec):
+    """deterministic in `spec` (a JSON dict kept in the replay): reference lines and the decoys derived from it"""
+    import random
+    rng = random.Random(spec['subseed'])
+    ref, info = cg.make_large_complex(rng, spec['n_big'], chains=tuple(spec['chains']), big_first=spec['big_first'],
+                                      hydrogens=spec['hydrogens'], where=('straddle', spec['n_big'] - spec['back']) if spec['where'] == 'straddle' else spec['where'])
+    small = info['small']
+    decoys = {'self': ref.copy()}
+    moved = ref.copy()
+    dy = rng.choice([0.7, 1.1, 1.6, 2.3])
+    for r in moved.residues:
+        if r['chain'] == small:
+            r['atoms'] = [(n, e, (round(x + rng.gauss(0, 0.15), 3), round(y + dy + rng.gauss(0, 0.15), 3), round(z + rng.gauss(0, 0.15), 3)))
+                          for (n, e, (x, y, z)) in r['atoms']]
+    # residues of the interface window deleted on either side
+    first, last = info['window']
+    bigidx = [i for i, r in enumerate(moved.residues) if r['chain'] == info['big']]
+    smallidx = [i for i, r in enumerate(moved.residues) if r['chain'] == small]
+    drop = set(rng.sample(bigidx[first:last + 1], min(2, last - first + 1)) + rng.sample(smallidx, min(rng.randint(0, 2), len(smallidx) - 1)))
+    moved.residues = [r for i, r in enumerate(moved.residues) if i not in drop]
+    decoys['moved'] = moved
+    return ref.lines(), {k: v.lines() for k, v in decoys.items()}, info
+
+
+class _BF:
+    """the atoms of a file as the definitions see them (from the text of the records; rowID = position among the ATOM records)"""
+
+    def __init__(self, lines):
+        at = cg.parse_lines(lines)
+        self.n = len(at)
+        self.xyz = np.array([a['xyz'] for a in at], dtype=float).reshape(-1, 3)
+        self.chain = np.array([a['chain'] for a in at])
+        self.name = [a['name'] for a in at]
+        self.heavy = np.array([not nm.startswith('H') for nm in self.name], dtype=bool)
+        self.bb = np.array([nm in BACKBONE for nm in self.name], dtype=bool)
+        self.res = [(a['chain'], a['resSeq'], a['resName']) for a in at]
+        self.chains = sorted(set(self.chain.tolist()))
+
+    def dist(self, i1, i2):
+        """distances between the atoms with the indices i1 and those with the indices i2 (blocks of rows)"""
+        out = np.empty((len(i1), len(i2)))
+        b = self.xyz[i2]
+        for s in range(0, len(i1), 512):
+            a = self.xyz[i1[s:s + 512]]
+            out[s:s + 512] = np.sqrt(((a[:, None, :] - b[None, :, :]) ** 2).sum(-1))
+        return out
+
+    def select(self, c, bb, noH):
+        m = self.chain == c
+        if bb:
+            m = m & self.bb
+        if noH:
+            m = m & self.heavy
+        return np.nonzero(m)[0]
+
+    def margin(self, cutoffs):
+        """smallest | distance - cutoff | over all inter-chain pairs of atoms"""
+        best = np.inf
+        for c1, c2 in itertools.combinations(self.chains, 2):
+            d = self.dist(np.nonzero(self.chain == c1)[0], np.nonzero(self.chain == c2)[0])
+            for c in cutoffs:
+                best = min(best, float(np.abs(d - c).min())) if d.size else best
+        return best
+
+    def contacts(self, c1, c2, cutoff, bb, noH):
+        """C05's definition: (atoms of c1 in contact, atoms of c2 in contact, pair map of the atoms of c1)"""
+        i1, i2 = self.select(c1, bb, noH), self.select(c2, bb, noH)
+        if len(i1) == 0 or len(i2) == 0:
+            return [], [], {}
+        close = self.dist(i1, i2) <= cutoff
+        pm = {int(i1[r]): [int(x) for x in i2[np.nonzero(close[r])[0]]] for r in np.nonzero(close.any(1))[0]}
+        return sorted(pm), sorted(int(x) for x in i2[np.nonzero(close.any(0))[0]]), pm
+
+    def clashes(self, c1, c2):
+        i1, i2 = self.select(c1, False, True), self.select(c2, False, True)
+        return int((self.dist(i1, i2) < 3.0).sum()) if len(i1) and len(i2) else 0
+
+    def residue_contacts(self, cutoff):
+        """pairs of residues of different chains having non-hydrogen atoms within the cutoff"""
+        out = set()
+        for c1, c2 in itertools.combinations(self.chains, 2):
+            i1, i2 = self.select(c1, False, True), self.select(c2, False, True)
+            if len(i1) == 0 or len(i2) == 0:
+                continue
+            for r, k in zip(*np.nonzero(self.dist(i1, i2) <= cutoff)):
+                out.add((self.res[i1[r]], self.res[i2[k]]))
+        return out
+
+
+def _fnat_definition(bref, bdec, cutoff):
+    cref, cdec = bref.residue_contacts(cutoff), bdec.residue_contacts(cutoff)
+    return len(cref & cdec), len(cref)
+
+
+def _canon_pm(r):
+    return {P_int(k): sorted(P_int(x) for x in v) for k, v in r.items()}
+
+
+def _canon_sets(r):
+    return {str(k): sorted(P_int(x) for x in v) for k, v in r.items()}
+
+
+def P_int(x):
+    if isinstance(x, bool) or not isinstance(x, (int, np.integer)):
+        raise TypeError('not an integer: %r' % (x,))
+    return int(x)
+
+
+def _first_diff(got, want):
+    """a short description of where two dicts of lists differ"""
+    for k in sorted(set(got) | set(want), key=str):
+        g, w = got.get(k), want.get(k)
+        if g != w:
+            gs, ws = set(g or []), set(w or [])
+            return {'key': k, 'missing': sorted(ws - gs)[:6], 'unexpected': sorted(gs - ws)[:6],
+                    'reported': None if g is None else len(g), 'expected': None if w is None else len(w)}
+    return None
+
+
+def large_structure_specs(ctx):
+    """quick: one big chain just above 2048 or 4096 records (with hydrogens, the partner at the window around position 2^k or at the end
+    of the chain, at least 20 records beyond 2^k) and one just above 256 / 512 / 1024 drawn like those of the thorough tier;
+    thorough: every size twice and four more, every parameter drawn at random"""
+    rng = ctx.rng
+    sizes = ctx.scale([rng.choice([2048, 2048, 4096]), rng.choice([256, 512, 1024])],
+                      LARGE_SIZES + LARGE_SIZES + [rng.choice(LARGE_SIZES) for _ in range(4)])
+    specs = []
+    for k, p2 in enumerate(sizes):
+        over = rng.choice([rng.randint(1, 8), rng.randint(8, 60), rng.randint(60, 250), rng.randint(250, 700)])
+        where = rng.choice(['end', 'end', 'straddle', 'straddle', 'straddle', 'random'])
+        hydrogens = rng.random() < 0.85
+        if k == 0 and not ctx.thorough:
+            over, hydrogens = max(over, 20), True
+            where = where if where != 'random' else 'straddle'
+        specs.append({'subseed': rng.getrandbits(48), 'n_big': p2 + over, 'power_of_two': p2, 'chains': list(rng.choice(CHAIN_PAIRS)),
+                      'big_first': rng.random() < 0.7, 'hydrogens': hydrogens, 'where': where,
+                      'back': rng.randint(0, over)})      # 'straddle': the window holds a position between 2^k and the last record
+    return specs
+
+
+def large_structure_checks(ctx):
+    from pdb2sql import interface
+    rng = ctx.rng
+    names = ['large structures: get_contact_atoms (sets and pair map, both chain orders, filters) = brute-force evaluation of the definition',
+             'large structures: compute_clashes (both chain orders) = number of inter-chain heavy-atom pairs closer than 3 A',
+             'large structures: compute_fnat_fast and compute_fnat_pdb2sql = preserved reference residue contacts / reference residue contacts']
+    bad = [None, None, None]
+    stats = {'structures': 0, 'regenerated_near_cutoff': 0, 'sizes': [], 'contact_calls': 0, 'fnat_values': 0, 'max_ref_contacts': 0}
+    cwd = os.getcwd()
+    os.chdir(ctx.tmpdir())
+    try:
+        for spec in large_structure_specs(ctx):
+            cutoffs = [5.0, rng.choice(LARGE_CUTOFFS[1:])]
+            for attempt in range(8):
+                rl, decoys, info = large_pair(spec)
+                bref = _BF(rl)
+                bdec = {k: _BF(v) for k, v in decoys.items()}
+                if min(b.margin(cutoffs + [3.0]) for b in [bref] + list(bdec.values())) >= 1e-6:
+                    break
+                stats['regenerated_near_cutoff'] += 1
+                spec = dict(spec, subseed=spec['subseed'] + 1)
+            else:
+                continue
+            stats['structures'] += 1
+            stats['sizes'].append(spec['n_big'])
+            ch = bref.chains
+            note = {'generator': 'props.c08.large_pair(spec) -> (reference lines, decoys, info)', 'spec': spec, 'info': info,
+                    'atoms': {c: int((bref.chain == c).sum()) for c in ch}}
+            # (a) contact atoms and pair map
+            db = None
+            try:
+                db = interface(list(rl))
+                combos = [(False, True), (False, False), (True, True)] + ([(True, False)] if ctx.thorough else [])
+                for (c1, c2) in ((ch[0], ch[1]), (ch[1], ch[0])):
+                    for bb, noH in combos:
+                        cut = cutoffs[0] if (bb, noH) != (False, True) else rng.choice(cutoffs + [3.0])
+                        s1, s2, pm = bref.contacts(c1, c2, cut, bb, noH)
+                        kw = dict(cutoff=cut, chain1=c1, chain2=c2, only_backbone_atoms=bb, excludeH=noH)
+                        for pairs in (True, False):
+                            stats['contact_calls'] += 1
+                            want = pm if pairs else {c1: s1, c2: s2}
+                            try:
+                                r = db.get_contact_atoms(return_contact_pairs=pairs, **kw)
+                                got = _canon_pm(r) if pairs else _canon_sets(r)
+                                diff = _first_diff(got, want)
+                            except Exception as e:
+                                diff = {'raised_or_unexpected_value': repr(e)[:300]}
+                            if diff is not None and bad[0] is None:
+                                rows = [diff.get('key')] + list(diff.get('missing', []))[:3] + list(diff.get('unexpected', []))[:3]
+                                bad[0] = dict(note, call=dict(kw, return_contact_pairs=pairs), first_difference=diff,
+                                              records={i: rl[i] for i in rows if isinstance(i, int) and 0 <= i < len(rl)})
+                # all chains at once
+                s1, s2, pm = bref.contacts(ch[0], ch[1], cutoffs[0], False, True)
+                try:
+                    got = _canon_pm(db.get_contact_atoms(cutoff=cutoffs[0], allchains=True, excludeH=True, return_contact_pairs=True))
+                    diff = _first_diff(got, pm)
+                except Exception as e:
+                    diff = {'raised_or_unexpected_value': repr(e)[:300]}
+                stats['contact_calls'] += 1
+                if diff is not None and bad[0] is None:
+                    bad[0] = dict(note, call={'cutoff': cutoffs[0], 'allchains': True, 'excludeH': True, 'return_contact_pairs': True}, first_difference=diff)
+            except Exception as e:
+                if bad[0] is None:
+                    bad[0] = dict(note, raised=repr(e)[:300])
+            finally:
+                try:
+                    if db is not None:
+                        db._close()
+                except Exception:
+                    pass
+            # (b) clash count, (c) Fnat
+            for dname, dl in [('reference', rl)] + sorted(decoys.items()):
+                b = bref if dname == 'reference' else bdec[dname]
+                if dname != 'self':
+                    p = write(ctx, dl)
+                    orders = [(ch[0], ch[1]), (ch[1], ch[0])]
+                    if dname != 'reference' and not ctx.thorough:
+                        orders = [rng.choice(orders)]         # quick tier: both orders on the reference, one on the decoy
+                    for (c1, c2) in orders:
+                        want = b.clashes(c1, c2)
+                        got = val(lambda: StructureSimilarity.compute_clashes(p, c1, c2), 'count')
+                        if got != want and bad[1] is None:
+                            bad[1] = dict(note, file=dname, chain1=c1, chain2=c2, compute_clashes=got, definition=want)
+                    if os.path.exists(p):
+                        os.remove(p)
+                if dname == 'reference':
+                    continue
+                via_file = rng.random() < 0.5
+                ref_arg, dec_arg = (write(ctx, rl), write(ctx, dl)) if via_file else (list(rl), list(dl))
+                S = StructureSimilarity(dec_arg, ref_arg)
+                for cut in (cutoffs if (dname != 'self' or ctx.thorough) else cutoffs[:1]):
+                    n, N = _fnat_definition(bref, b, cut)
+                    stats['max_ref_contacts'] = max(stats['max_ref_contacts'], N)
+                    if N == 0:
+                        continue
+                    for route, f in (('fast', S.compute_fnat_fast), ('sql', S.compute_fnat_pdb2sql)):
+                        got = val(lambda: f(cutoff=cut))
+                        stats['fnat_values'] += 1
+                        try:
+                            ok = abs(unrat(got) - Fraction(n, N)) <= Fraction(1, 2 * 10 ** 6) + TOL and 0 <= unrat(got) <= 1
+                            if dname == 'self':
+                                ok = ok and got == '1/1'
+                        except Exception:
+                            ok = False
+                        if not ok and bad[2] is None:
+                            bad[2] = dict(note, decoy=dname, route=route, cutoff=cut, returned=got if isinstance(got, str) and not got[:1].isdigit() else float(unrat(got)),
+                                          definition=f'{n}/{N} = {n / N:.6f}')
+                for q in (ref_arg, dec_arg):
+                    if isinstance(q, str) and os.path.exists(q):
+                        os.remove(q)
+    finally:
+        os.chdir(cwd)
+    enough = stats['structures'] >= 1 and stats['fnat_values'] > 0
+    tail = f' ({stats["structures"]} structures, records of the big chain {stats["sizes"]}, {stats["contact_calls"]} contact calls, {stats["fnat_values"]} Fnat values, ' \
+           f'up to {stats["max_ref_contacts"]} reference contacts, {stats["regenerated_near_cutoff"]} regenerated near a cutoff)'
+    return [{'name': names[i] + (tail if i == 0 else ''), 'ok': bad[i] is None and enough, 'case': bad[i],
+             'detail': 'generator could not build a structure' if not enough else 'independent NumPy evaluation on the text of the ATOM records; reproduce with the spec in the case',
+             'kind': 'large-structure'} for i in range(3)]
+
+
 def extra_checks(ctx):
     import random
     res = gen_fnat_checks(ctx)
     res += sim_gen_checks(ctx)                       # simTie: Gen/Sim.lean
+    try:
+        res += large_structure_checks(ctx)
+    except Exception as e:                               # a crash of this harness code is a failed check with its reason, never an exit 2
+        res.append({'name': 'large structures against brute-force definitions', 'ok': False, 'case': None, 'detail': 'harness error ' + repr(e)[:300]})
     cwd = os.getcwd()
     os.chdir(ctx.tmpdir())
     try:
